@@ -4,7 +4,7 @@ CONSTANTS
   RLCounts = {1}
   RLMaxRuns = 1
   SmallLen = 5
-  LzwLens = {253, 254, 255, 256, 257, 260, 766, 767, 768}
+  LzwLens = {254, 255, 256, 257, 260, 766, 767}
   BREAK = "none"
 INVARIANTS LZWOK
 CHECK_DEADLOCK FALSE
